@@ -24,6 +24,7 @@ ASSUMPTIONS = [
     "sequential histories",
 ]
 TRUSTED_BASE = [
+    "go2coq SafeNameGen (translation of checkSafeName into a Gallina boolean function; Server/SafeNameTie.v proves it equal to Msg.safe_nameb for every string; strings.Contains = Server/SafeNamePrims.go_contains, hand model)",
     "Coq 8.16.1 kernel, vm_compute",
     "axioms: none",
     "go2coq HandlerGen + ConstGen",
